@@ -46,7 +46,7 @@ FLOORS = {"kept_object_asked_again": 5000, "kept_object_mask_must_change": 500, 
 SHARDS = {"quick": 16, "thorough": 64}
 CLASSES = ["auto", "auto_full", "explicit", "mixed", "tags", "reuse", "deep",
            "interleaved", "crossbranch", "fragment", "reuse_fixed",
-           "grow_fixed", "fixed_auto_many"]
+           "grow_fixed", "fixed_auto_many", "revisit_big"]
 OWN_ATTRIBUTES = {"length", "fields", "field_values", "get_value", "get_mask",
                   "add_field", "keys"}   # attribute access finds these first
 KF_KEY = "assign-fields-first-fit-fragmentation"
@@ -55,6 +55,13 @@ ANCHORS = [("rig.bitfield", "BitField._assign_field",
             {"first_fit_found": "start_at = bit",
              "explicit_position": "field_bits = ((1 << length) - 1) << "
                                   "start_at"})]
+
+
+def fresh(d):
+    """the same values as objects of their own: a caller computes a field's
+    value anew each time (a second loop, another module), and equal integers
+    above 256 are then different objects"""
+    return {k: (int(str(v)) if type(v) is int else v) for k, v in d.items()}
 
 
 def plan(tier):
@@ -221,6 +228,8 @@ def gen(cls, idx, rng, tier):
         return gen_fragment(rng)
     if cls == "reuse_fixed":
         return gen_reuse_fixed(rng)
+    if cls == "revisit_big":
+        return gen_revisit_big(rng)
     if cls == "grow_fixed":
         return gen_grow_fixed(rng)
     if cls == "fixed_auto_many":
@@ -484,6 +493,41 @@ def gen_fixed_auto_many(rng):
     return dict(L=L, ops=ops)
 
 
+def gen_revisit_big(rng):
+    """Scopes selected by LARGE values of a field (core 300, 301, ...), each
+    visited twice: first a field at a fixed position, then - later, with
+    the selector value computed anew - a second field at a fixed position
+    that overlaps the first, touches it, or is clear of it."""
+    L = rng.choice([32, 32, 64])
+    w = rng.choice([10, 13, 16])
+    ops = [("add", {}, "core", w, L - w, None)]
+    room = L - w
+    base = rng.choice([257, 300, 1000, (1 << w) - 5, 256, 255, 3])
+    vals = [base + i for i in range(rng.randint(1, 4))]
+    n_ln = rng.randint(2, 8)
+    n_st = rng.randint(0, room - n_ln - 4)
+    for v in vals:
+        ops.append(("add", {"core": v}, "neuron", n_ln, n_st, None))
+    if rng.random() < .5:
+        ops.append(("val", {"core": vals[0], "neuron": 1}))
+    for v in vals:
+        mode = rng.choice(["inside", "edge", "clear", "clear"])
+        ln = rng.randint(1, 4)
+        if mode == "inside":
+            st = n_st + rng.randint(0, n_ln - 1)
+        elif mode == "edge":
+            st = max(0, n_st - ln + 1)
+        else:
+            st = n_st + n_ln if n_st + n_ln + ln <= room else 0
+            if st == 0 and n_st < ln:
+                st = n_st + n_ln
+        ops.append(("add", {"core": v}, "kind", ln, st, None))
+    ops.append(("layout",))
+    for v in vals:
+        ops.append(("query", {"core": v, "neuron": 1, "kind": 0}))
+    return dict(L=L, ops=ops)
+
+
 def gen_reuse_fixed(rng):
     """Sibling scopes re-use a field name at different fixed positions; a
     field defined afterwards, where the selector is still open, may overlap
@@ -581,7 +625,7 @@ def run(case, ctx):
         if kind == "add":
             _, scope, name, length, start, tags = op
             why = sh.judge_values(scope)
-            ok, scoped = call("bf(**%r)" % scope, lambda: bf(**scope))
+            ok, scoped = call("bf(**%r)" % scope, lambda: bf(**fresh(scope)))
             if why is not None:
                 check(not ok, "bad-scope-accepted", "%r (%s)" % (scope, why))
                 continue
@@ -636,7 +680,7 @@ def run(case, ctx):
         elif kind == "val":
             assign = op[1]
             why = sh.judge_values(assign)
-            ok, res = call("bf(**%r)" % assign, lambda: bf(**assign))
+            ok, res = call("bf(**%r)" % assign, lambda: bf(**fresh(assign)))
             if why is None:
                 check(ok, "values-rejected", "bf(**%r) raised %s: %s" %
                       (assign, type(res).__name__, res), trace=trace[-6:])
@@ -670,7 +714,7 @@ def run(case, ctx):
                                     for f in sh.fields])
                 # some fields may have been given positions: refresh
                 for f in sh.fields:
-                    o, loc = call("loc", lambda f=f: bf(**f.scope)
+                    o, loc = call("loc", lambda f=f: bf(**fresh(f.scope))
                                   .get_location_and_length(f.name))
                     f.loc = tuple(loc) if o else f.loc
                 continue
@@ -718,10 +762,10 @@ def run(case, ctx):
                               (a_old, t, tm, want_t), trace=trace[-8:])
             assign = op[1]
             if sh.judge_values(assign) is not None:
-                ok, _ = call("bf(**assign)", lambda: bf(**assign))
+                ok, _ = call("bf(**fresh(assign))", lambda: bf(**fresh(assign)))
                 check(not ok, "bad-values-accepted", repr(assign))
                 continue
-            ok, b = call("bf(**assign)", lambda: bf(**assign))
+            ok, b = call("bf(**fresh(assign))", lambda: bf(**fresh(assign)))
             check(ok, "values-rejected", "bf(**%r): %s" % (assign, b))
             sh.see_values(assign)
             en = sh.enabled(assign)
@@ -745,7 +789,7 @@ def run(case, ctx):
                         del part[k]
                         shrinking = True
             if len(part) < len(assign):
-                ok, bp = call("bf(**partial)", lambda: bf(**part))
+                ok, bp = call("bf(**partial)", lambda: bf(**fresh(part)))
                 check(ok, "values-rejected", "bf(**%r): %s" % (part, bp))
                 ok, pm = call("get_mask", bp.get_mask)
                 want_pm = 0
@@ -769,7 +813,7 @@ def run(case, ctx):
             ok, r3 = call("unknown field", lambda: b(no_such_field_=1))
             check(not ok and isinstance(r3, LookupError),
                   "unknown-field-accepted", repr(r3))
-            ok, b2 = call("again", lambda: bf(**assign))
+            ok, b2 = call("again", lambda: bf(**fresh(assign)))
             check(ok and b2 == b and not (b2 != b), "equal-assignments-differ",
                   repr(assign))
             try:
@@ -810,7 +854,7 @@ def check_layout(ctx, bf, sh, call, trace):
     L = sh.L
     for f in sh.fields:
         ok, loc = call("get_location_and_length",
-                       lambda f=f: bf(**f.scope).get_location_and_length(
+                       lambda f=f: bf(**fresh(f.scope)).get_location_and_length(
                            f.name))
         check(ok, "no-location-after-layout", "field %r in %r: %s" %
               (f.name, f.scope, loc), trace=trace[-6:])
